@@ -70,6 +70,13 @@ slice_thicknesses setters followed by the recomputation calls; pattern order (da
 through the public `dset.scan_positions_px` setter); probe_params key order.  Class {"relation":
 "ordered_configuration_is_used_in_order", "sequence": ..., "what": ...}.
 
+Copies / alternative constructors (fifth part): clone(), from_ptychography(), save(with raw data)+from_file, save(default, no raw
+data)+from_file(path) on a FILE-BACKED data set, save(no raw data)+from_file(path, dset=fresh identically preprocessed data set),
+copy.deepcopy (where supported); bases with a padding the library adjusts ((9,11) -> (11,14)) and an aligned one, learnable and
+fixed scan positions, 1 and 3 slices.  (i) the second object predicts the data at the ground truth and copying leaves the original
+intact: {"relation": "copy_predicts_its_data", "kind": ...}; (ii) isolation: five changes applied to one of the two, the other
+judged after each, both directions: {"relation": "copies_are_isolated", "kind": ..., "change": ..., "changed": ...}.
+
 Stated limit. `com_fit_function="constant"` shifts every pattern by the data-dependent mean centre of mass
 with sinc interpolation; "zero to numerical precision" is only defined when that is an integer pixel.  It
 is provably the detector centre for vacuum data of a centro-symmetric aperture that stays below Nyquist, so
@@ -109,7 +116,9 @@ CLAIM = (
     "to the public setters / configuration calls, alone and combined with each other and with the valid events, are refused without "
     "changing anything the forward model uses, also after derived state is rebuilt; slice-thickness sequences in every order pattern "
     "(distinct and repeated values, five container kinds, four installation routes), permuted pattern orders and probe_params key "
-    "orders are used in the order given. Exploration is the right level: the property quantifies over configurations and "
+    "orders are used in the order given; every way of obtaining a second object (clone, from_ptychography, three save/from_file "
+    "routes incl. a file-backed data set, deepcopy) yields one that predicts the data and is isolated from the original under five "
+    "kinds of change, in both directions. Exploration is the right level: the property quantifies over configurations and "
     "batch schedules, which are enumerated completely; array contents are seeded alphabet members."
 )
 NOTE = (
@@ -129,7 +138,8 @@ RULE = (
     "Refused requests: every member alone, pairs over the core members and with the valid events (thorough: plus triples over six "
     "core members and the valid events), on 3 (quick) / 4 (thorough) base configurations incl. a single-slice one. Ordered "
     "configuration: sequences x routes x bases (quick: list container plus all containers for two sequences; thorough: full product), "
-    "6 pattern orders x {1,3} slices, 6 probe_params key orders."
+    "6 pattern orders x {1,3} slices, 6 probe_params key orders. Copies: base configurations x 6 ways of copying x which of the "
+    "two objects is changed; the five changes are applied one after the other and the other object is judged after each."
 )
 
 # ----------------------------------------------------------------------------- tolerances
